@@ -55,7 +55,8 @@ type item struct {
 // ---- executing a history ---------------------------------------------------------------------------
 
 type runner struct {
-	light  bool    // observe only the registry getters (scratch / monitor runs)
+	last   []string // tasks of the last processed block
+	light  bool     // observe only the registry getters (scratch / monitor runs)
 	cur    *state  // the state after the last item (nil: unknown)
 	status string  // result of the last block item
 	out    *hx.Out // nil: silent run
@@ -123,6 +124,7 @@ func (r *runner) exec(it *item) *state {
 		r.op("P", "")
 		res := r.n.processBlock(it.num, it.evs, -1, "")
 		r.status = res.status
+		r.last = res.tasks
 		switch res.status {
 		case "ok":
 			r.obs(fmt.Sprintf("res ok %d", res.writes))
@@ -276,8 +278,18 @@ func validSize(n int) bool { return n == 4 || n == 7 || n == 10 || n == 13 }
 
 // checkRules is the direct statement of the registration rules on one event applied alone:
 // before / after are the observed states around a single-event block.
-func checkRules(e *absEvent, before, after *state, viol func(string, ...any)) {
+func checkRules(e *absEvent, tasks []string, before, after *state, viol func(string, ...any)) {
 	sb, sa := parseShares(before), parseShares(after)
+	// tasks: a validator is started / exited only on behalf of its owner
+	for _, t := range tasks {
+		w := strings.Fields(t)
+		if len(w) >= 3 && (w[1] == "start" || w[1] == "exit" || w[1] == "stop") {
+			v := parseU(w[2])
+			if s, had := sb[v]; had && s.owner != e.owner {
+				viol("C11 task %q for validator %d of owner %d issued on an event of owner %d: %s", t, v, s.owner, e.owner, e.line())
+			}
+		}
+	}
 	nb, na := parseNonces(before), parseNonces(after)
 	self := parseU(strings.TrimPrefix(before.self, "self "))
 	// nonce: every ValidatorAdded counts exactly once (mod 2^16), nothing else moves a nonce
@@ -368,7 +380,7 @@ func monitorC11(items []*item, final *state, tasks []string, viol func(string, .
 			continue
 		}
 		if it.kind == "block" && len(it.evs) == 1 && r.status == "ok" {
-			checkRules(it.evs[0], prev, st, viol)
+			checkRules(it.evs[0], r.last, prev, st, viol)
 		}
 		prev = st
 	}
